@@ -70,6 +70,9 @@ func genC20(seed uint64) *Scenario {
 	}
 	slots := r.Range(2, 6)
 	n := pick(r, []int{2, 3, 4, 6, 8, 12, 20, 35, 60})
+	if deep() {
+		n = pick(r, []int{4, 8, 16, 30, 60, 120, 200})
+	}
 	texts := []string{"e1", "e2", "e3", "w1", "w2", "same", "same", "x y", ""}
 	rs := &ResultScenario{Slots: slots}
 	pooledPM := pick(r, []int{0, 300, 600, 900})
